@@ -81,7 +81,16 @@ def _config(physics, output, n_steps, estimation, history, save_steps=False, spa
     """``span_steps``: configured span (start..stop_timestamp) in steps; default covers the run. A run may legally go
     PAST the configured span (``resonaate -t <hours>`` does): the epochs beyond it are then created by the saves."""
     tg, ss, events, fp = _network(START, estimation, history, physics, n_steps, save_steps)
-    cfg = scen.config(START, (n_steps + 1) if span_steps is None else span_steps, [scen.engine(1, tg, ss)], physics=physics, output=output,
+    engines = [scen.engine(1, tg, ss)]
+    if history == "shared_target":
+        # a second and a third tasking engine that list target 10001 again (identical state, which is legal), each with
+        # its own sensor: the target is ONE agent with ONE estimate, whatever number of engines track it
+        import copy  # noqa: PLC0415
+
+        engines.append(scen.engine(2, [copy.deepcopy(tg[0])], [scen.ground_sensor(20004, 8.0, 23.0, fov={"fov_shape": "conic", "cone_angle": 20.0})]))
+        engines.append(scen.engine(3, [copy.deepcopy(tg[0]), copy.deepcopy(tg[1])],
+                                   [scen.ground_sensor(20005, 11.0, 17.0, fov={"fov_shape": "conic", "cone_angle": 20.0})]))
+    cfg = scen.config(START, (n_steps + 1) if span_steps is None else span_steps, engines, physics=physics, output=output,
                       truth_only=not estimation, events=events, filter_params=fp, seed=3)
     if history == "gpf":
         # the genetic particle filter: its filter steps are rows of another joined table (particle_filter_step)
@@ -118,6 +127,10 @@ def items(tier, seed):
     for (p, o) in ((60, 60), (60, 300)):
         out.append(("audit", p, o, n, True, "none", "single", [n], True))  # save_filter_steps
         out.append(("audit", p, o, n, True, "maneuver", "each_step", list(range(1, n + 1)), True))
+    # one target tracked by several tasking engines
+    out.append(("audit", 60, 60, 4, True, "shared_target", "single", [4], False))
+    out.append(("audit", 60, 120, 4, True, "shared_target", "each_step", [1, 2, 3, 4], True))
+    out.append(("audit", 60, 60, 4, False, "shared_target", "split2", [2, 4], False))
     # the particle filter (its filter steps live in their own joined table), with and without saved filter steps
     out.append(("audit", 60, 60, 4, True, "gpf", "single", [4], True))
     out.append(("audit", 60, 120, 4, True, "gpf", "each_step", [1, 2, 3, 4], True))
@@ -148,6 +161,10 @@ def items(tier, seed):
         for hist in ("none", "agents"):
             for save_idx in range(crash_n + 1):
                 out.append(("crash", 60, 60, crash_n, est, hist, save_idx))
+    # saves that also write filter steps (joined-table rows), detected maneuvers, particle-filter steps
+    for hist in ("none", "maneuver", "gpf"):
+        for save_idx in range(1, crash_n + 1):
+            out.append(("crash", 60, 60, crash_n, True, hist, save_idx, True))
     out.append(("crash", 60, 300, 5, True, "none", 1))
     return out
 
@@ -441,10 +458,11 @@ def _run_to_save(cfg, n, save_idx):
 
 
 def _run_crash(res, item):
-    _, physics, output, n, est, hist, save_idx = item
+    _, physics, output, n, est, hist, save_idx = item[:7]
+    save_steps = bool(item[7]) if len(item) > 7 else False
     if save_idx == 0:
         return  # the initial save runs inside the constructor; covered by the audit of the initial state
-    cfg = _config(physics, output, n, est, hist)
+    cfg = _config(physics, output, n, est, hist, save_steps)
     # dry run: count the statements of this save and capture the pre/post dumps
     sc, hit = _run_to_save(cfg, n, save_idx)
     if not hit:
@@ -474,7 +492,7 @@ def _run_crash(res, item):
         after = _dump_no_epochs(sc2.database)
         state = "pre" if after == pre else "post" if after == post else "partial"
         case = {"physics": physics, "output": output, "estimation": est, "history": hist, "save": save_idx, "crash_point": point,
-                "statements": n_stmt}
+                "statements": n_stmt, "save_filter_steps": save_steps}
         res.case("crash/all_or_nothing", case, state in ("pre", "post") and inj.fired, nontrivial=True,
                  signature=f"C09/crash/{'not_injected' if not inj.fired else 'partial_step_committed'}",
                  observed={"db_state": state, "raised": raised}, expected="pre-save or post-save contents",
